@@ -118,8 +118,8 @@ pub struct World {
     pub known_arcs: Vec<(Vec<u8>, c15::Files)>,
 }
 
-const DIRS: [&str; 7] = ["m", "data", "Subdir", "a", "x.y", "zz", "scripts"];
-const FILES: [&str; 16] = ["GameData.bin.lz", "one.bin", "two.txt", "mess.cmp", "f.cms", "plain", "three.txt", "arc.arc", "pack.bin", "t.bin.lz", "GameData.bin", "n-1_@.dat", "tex.ctpk", "model.bch", "ui.bcres", "img.tpl"];
+const DIRS: [&str; 8] = ["m", "data", "Subdir", "a", "x.y", "zz", "scripts", "tex\\hi"];
+const FILES: [&str; 17] = ["GameData.bin.lz", "one.bin", "two.txt", "mess.cmp", "f.cms", "plain", "three.txt", "arc.arc", "pack.bin", "t.bin.lz", "GameData.bin", "n-1_@.dat", "tex.ctpk", "model.bch", "ui.bcres", "img.tpl", "odd\\name.bin"];
 
 pub fn gen_dir(rng: &mut Rng) -> String {
     let d = rng.range(0, 3);
@@ -309,6 +309,13 @@ impl World {
             let r = base.join(format!("L{}", i));
             materialize(&r, t).map_err(|e| format!("materializing layer {}: {}", i, e))?;
             roots.push(r);
+        }
+        // now and then the layer list names the lowest directory again as the top layer: [L0, .., L0]
+        if roots.len() >= 2 && rng.chance(1, 12) {
+            c.sit("layer_list_names_a_directory_twice");
+            roots.push(roots[0].clone());
+            let t0 = layers[0].clone();
+            layers.push(t0);
         }
         let fs = c
             .lib("LayeredFilesystem::new", || LayeredFilesystem::new(roots.iter().map(|r| r.display().to_string()).collect(), lang, game).map_err(|e| e.to_string()))
@@ -847,6 +854,25 @@ pub fn exec(c: &mut Case, w: &mut World, op: &FOp) -> bool {
             }
         }
         FOp::Write(_, _, _) | FOp::WriteArchive(_, _, _) | FOp::WriteText(_, _, _) => {
+            // existence queries right before the write (answers are checked by the dedicated ops;
+            // here they only give a stateful implementation the chance to remember a miss)
+            let mut parents: Vec<String> = Vec::new();
+            if let Some(ap) = &ap {
+                let comps: Vec<&str> = ap.trim_end_matches('/').split('/').collect();
+                for i in 1..comps.len() {
+                    parents.push(comps[..i].join("/"));
+                }
+            }
+            let _ = c.lib("exists before write", || {
+                let _ = w.fs.exists(&path, localized);
+                let _ = w.fs.file_exists(&path, localized);
+                let _ = w.fs.resolve(&path, localized);
+                for d in &parents {
+                    let _ = w.fs.exists(d, false);
+                    let _ = w.fs.directory_exists(d, false);
+                    let _ = w.fs.resolve(d, false);
+                }
+            });
             // the bytes the helper must hand to the byte-level write
             let (r, logical): (Option<Result<(), String>>, Option<Vec<u8>>) = match op {
                 FOp::Write(_, payload, _) => {
@@ -940,6 +966,39 @@ pub fn exec(c: &mut Case, w: &mut World, op: &FOp) -> bool {
                             add_parents(&mut t, &ap);
                             t.insert(ap.clone(), Node::File(st.clone()));
                             top_expected = Some(t);
+                            // the existence queries and resolve must see the new file and its parents
+                            if ok {
+                                let top_root = w.roots[w.top()].clone();
+                                let probes = c.lib("existence queries after write", || {
+                                    let mut bad: Vec<String> = Vec::new();
+                                    if w.fs.file_exists(&path, localized).ok() != Some(true) {
+                                        bad.push(format!("file_exists({:?}, {}) is not true", path, localized));
+                                    }
+                                    if w.fs.exists(&path, localized).ok() != Some(true) {
+                                        bad.push(format!("exists({:?}, {}) is not true", path, localized));
+                                    }
+                                    if w.fs.resolve(&path, localized) != Some(top_root.join(&ap)) {
+                                        bad.push(format!("resolve({:?}, {}) = {:?}, expected the top-layer file", path, localized, w.fs.resolve(&path, localized)));
+                                    }
+                                    for d in &parents {
+                                        if w.fs.directory_exists(d, false).ok() != Some(true) {
+                                            bad.push(format!("directory_exists({:?}) is not true", d));
+                                        }
+                                        if w.fs.exists(d, false).ok() != Some(true) {
+                                            bad.push(format!("exists({:?}) is not true", d));
+                                        }
+                                    }
+                                    bad
+                                });
+                                match probes {
+                                    Some(bad) if !bad.is_empty() => {
+                                        c.fail("existence_after_write", "existence_after_write", ctxs(&format!("after the write: {}", bad.join("; ")), w));
+                                        ok = false;
+                                    }
+                                    None => ok = false,
+                                    _ => {}
+                                }
+                            }
                             // read-after-write with the same localisation choice
                             if ok {
                                 match c.lib("read after write", || w.fs.read(&path, localized).map_err(|e| e.to_string())) {
@@ -1066,6 +1125,9 @@ pub fn exec(c: &mut Case, w: &mut World, op: &FOp) -> bool {
         }
     };
     for i in 0..w.top() {
+        if w.roots[i] == w.roots[w.top()] {
+            continue; // the same directory is also the top layer
+        }
         if after[i] != before[i] {
             let changed: Vec<String> = after[i].iter().filter(|(p, n)| before[i].get(*p) != Some(n)).map(|(p, _)| p.clone()).chain(before[i].keys().filter(|p| !after[i].contains_key(*p)).map(|p| format!("-{}", p))).collect();
             c.fail("lower_layer_modified", "lower_layer_modified", ctxs(&format!("lower layer L{} changed on disk: {:?}", i, changed), w));
